@@ -156,7 +156,9 @@ func (k Keeper) RecvPacket(
 		}
 
 		if _, found = k.clientKeeper.GetClientState(ctx, packet.GetDestChain()); !found {
-			return errorsmod.Wrap(clienttypes.ErrClientNotFound, fromChain)
+			// a destination this relay chain has no client for cannot be reached: refuse
+			// the packet with an error acknowledgement, like a route that is not whitelisted
+			return sdkerrors.ErrUnauthorized
 		}
 
 		k.SetPacketCommitment(ctx, packet.GetSourceChain(), packet.GetDestChain(), packet.GetSequence(), commitment)
